@@ -19,8 +19,10 @@
      search            validate_search_request; engine: dimension (-> INVALID_ARGUMENT via
                        classify_search_error_message), normalize_query_for_search (zero norm -> INTERNAL)
      bulk_search       per-request results of handle_search_requests_batch (validator per request; the engine
-                       fails a whole group = same (search_k, ef, namespace, filter)); the response STREAM ends
-                       at the first Err item (tonic) — `delivered`
+                       fails a whole group = same (search_k, ef, namespace, filter)); since /repo b58b923 a refused
+                       request is answered in-band (SearchResponse.error) and the stream goes on; the stream is
+                       ended by a CALL-level status only for a message that does not decode (INTERNAL) or past
+                       MAX_BATCH_SIZE (RESOURCE_EXHAUSTED, after the accepted requests were answered)
      decoding          a filter nested deeper than prost's recursion limit is refused by the codec: INTERNAL
      flush_hot_tier    no input to validate
    The collection is the tenant's view: local id -> (vector tag, public metadata).  One authenticated tenant.
@@ -148,7 +150,7 @@ Inductive response :=
 | OkQuery (found : bool)
 | OkBulkQuery (found : list bool)
 | OkSearch
-| OkBulkSearch (items : list sitem)                      (* per-request outcomes, before stream delivery *)
+| OkBulkSearch (items : list sitem) (final : option status)   (* one item per answered request, in order; the status that ended the stream early, if any *)
 | OkExisted (existed : bool)
 | OkBatchDelete (deleted : N)
 | OkFlush.
@@ -157,7 +159,7 @@ Definition sitem_no_crash (i : sitem) : bool := match i with SOk => true | SErr 
 Definition no_crash (r : response) : bool :=
   match r with
   | Refused c => negb (is_crash c)
-  | OkBulkSearch items => forallb sitem_no_crash items
+  | OkBulkSearch items final => forallb sitem_no_crash items && match final with Some c => negb (is_crash c) | None => true end
   | _ => true
   end.
 (* is the whole call refused? *)
@@ -360,24 +362,32 @@ Fixpoint group_err (cfg : config) (r : sreq) (bad : list sreq) : option status :
   | x :: rest => if same_group r x then engine_search_err cfg true x else group_err cfg r rest
   end.
 Definition search_item (cfg : config) (bad : list sreq) (r : sreq) : sitem :=
-  if negb (decodable cfg (q_filter r)) then SErr Internal           (* "stream error": the message does not decode *)
-  else match validate_search_request (sview r) with
-       | VErr _ => SErr InvalidArgument
-       | VOk _ => match group_err cfg r bad with Some c => SErr c | None => SOk end
-       end.
+  match validate_search_request (sview r) with
+  | VErr _ => SErr InvalidArgument
+  | VOk _ => match group_err cfg r bad with Some c => SErr c | None => SOk end
+  end.
 Definition take {A} (n : N) (l : list A) : list A := firstn (N.to_nat n) l.
+(* the messages read before one fails to decode *)
+Fixpoint decodable_prefix (cfg : config) (rs : list sreq) : list sreq :=
+  match rs with
+  | [] => []
+  | r :: rest => if decodable cfg (q_filter r) then r :: decodable_prefix cfg rest else []
+  end.
+Definition all_decodable (cfg : config) (rs : list sreq) : bool := forallb (fun r => decodable cfg (q_filter r)) rs.
+(* The server reads at most MAX_BATCH_SIZE + 1 messages.  An undecodable one among the first MAX_BATCH_SIZE
+   ends the stream with INTERNAL ("stream error"); otherwise a (MAX_BATCH_SIZE+1)-th message ends it with
+   RESOURCE_EXHAUSTED after the accepted requests were answered.  `items` are the answers the server
+   produces for the requests read before that point (a stream is one batch); when the stream is ended by a
+   status, answers still buffered may be lost in transport (see stream_ok). *)
 Definition h_bulk_search (cfg : config) (ds : coll) (rs : list sreq) : coll * response :=
   let counted := take (c_max_batch cfg) rs in
-  let bad := filter (engine_bad cfg) counted in
-  let outs := map (search_item cfg bad) counted in
-  (ds, OkBulkSearch (if c_max_batch cfg <? len rs then outs ++ [SErr ResourceExhausted] else outs)).
-(* what reaches the client: a gRPC response stream ends at its first Err item *)
-Fixpoint delivered (l : list sitem) : list sitem :=
-  match l with
-  | [] => []
-  | SOk :: r => SOk :: delivered r
-  | SErr c :: _ => [SErr c]
-  end.
+  let readable := decodable_prefix cfg counted in
+  let bad := filter (engine_bad cfg) readable in
+  let outs := map (search_item cfg bad) readable in
+  let final := if negb (all_decodable cfg counted) then Some Internal
+               else if c_max_batch cfg <? len rs then Some ResourceExhausted
+               else None in
+  (ds, OkBulkSearch outs final).
 
 (* ---------------------------------------------------------------- UpdateMetadata / Delete / BatchDelete *)
 Definition h_update (ds : coll) (id : N) (m : meta) (merge : bool) : coll * response :=
@@ -435,7 +445,7 @@ Inductive op := OReq (r : request) | ORestart.
 (* what the harness saw: the answer, then the census of the id pool *)
 Inductive obs_resp :=
 | ObsResp (r : response)                                  (* everything but BulkSearch; restart = OkFlush *)
-| ObsStream (oks : N) (final : option status).            (* BulkSearch: Ok items received, terminating status *)
+| ObsStream (items : list sitem) (final : option status). (* BulkSearch: items received in order (Ok, or Ok carrying a per-item failure), terminating status *)
 Definition status_eqb (a b : status) : bool :=
   match a, b with
   | InvalidArgument, InvalidArgument | Internal, Internal | ResourceExhausted, ResourceExhausted
@@ -452,29 +462,35 @@ Definition response_eqb (a b : response) : bool :=
   | OkQuery b, OkQuery b' => Bool.eqb b b'
   | OkBulkQuery l, OkBulkQuery l' => list_eqb Bool.eqb l l'
   | OkSearch, OkSearch => true
-  | OkBulkSearch l, OkBulkSearch l' => list_eqb sitem_eqb l l'
+  | OkBulkSearch l f, OkBulkSearch l' f' => list_eqb sitem_eqb l l' && opt_eqb status_eqb f f'
   | OkExisted b, OkExisted b' => Bool.eqb b b'
   | OkBatchDelete n, OkBatchDelete n' => n =? n'
   | OkFlush, OkFlush => true
   | _, _ => false
   end.
-Fixpoint count_oks (l : list sitem) : N := match l with SOk :: r => 1 + count_oks r | _ => 0 end.
-Fixpoint first_err (l : list sitem) : option status :=
-  match l with [] => None | SOk :: r => first_err r | SErr c :: _ => Some c end.
-(* Ok items that precede an Err item in the same flush may be dropped by the transport (tonic's
-   EncodedBytes discards its buffer when the source yields an error): fewer Oks are accepted there *)
-Definition stream_ok (model : list sitem) (oks : N) (final : option status) : bool :=
-  match first_err model with
-  | None => (oks =? len model) && match final with None => true | Some _ => false end
-  | Some c => (oks <=? count_oks model) && opt_eqb status_eqb final (Some c)
+Fixpoint is_prefix (a b : list sitem) : bool :=
+  match a, b with
+  | [], _ => true
+  | x :: a', y :: b' => sitem_eqb x y && is_prefix a' b'
+  | _ :: _, [] => false
   end.
+(* A stream that the server ends with a status: the answers sent right before the status may be dropped by
+   the transport (tonic's EncodedBytes discards its buffer when the source yields an error), and answers of a
+   still-pending batch are not produced at all before a decode failure: a prefix is accepted there.  A stream
+   that ends normally must carry exactly the model's items. *)
+Definition stream_ok (model : list sitem) (mfinal : option status) (items : list sitem) (final : option status) : bool :=
+  opt_eqb status_eqb mfinal final
+  && match mfinal with
+     | None => list_eqb sitem_eqb model items
+     | Some _ => is_prefix items model
+     end.
 Definition meta_eqb (a b : meta) : bool := list_eqb (fun x y => (fst x =? fst y) && (snd x =? snd y)) a b.
 Definition doc_eqb (a b : doc) : bool := (d_vtag a =? d_vtag b) && meta_eqb (d_meta a) (d_meta b).
 Definition census_eqb (a b : list (N * option doc)) : bool :=
   list_eqb (fun x y => (fst x =? fst y) && opt_eqb doc_eqb (snd x) (snd y)) a b.
 Definition obs_ok (model : response) (o : obs_resp) : bool :=
   match o, model with
-  | ObsStream oks final, OkBulkSearch items => stream_ok items oks final
+  | ObsStream items final, OkBulkSearch m mfinal => stream_ok m mfinal items final
   | ObsStream _ _, _ => false
   | ObsResp r, m => response_eqb m r
   end.
